@@ -466,6 +466,23 @@ func waitAssetIndex(n *Node, b *types.Block) bool {
 			}
 			time.Sleep(10 * time.Millisecond)
 		}
+		// VerifyAssetTx reads the SENDER's canonical account (the store's stable data, written behind the stable block by the store's own
+		// goroutine): under load it can lag behind the index. Waiting changes nothing for a node that will never know the asset
+		// (the listed finding); it only keeps a slow background writer from looking like a rejected honest block.
+		from := tx.From()
+		for i := 0; i < 300; i++ {
+			acc := account.NewManager(b.ParentHash(), n.DB).GetCanonicalAccount(from)
+			var err error
+			if tx.Type() == params.TransferAssetTx {
+				_, err = acc.GetAssetIdState(code)
+			} else {
+				_, err = acc.GetAssetCode(code)
+			}
+			if err == nil {
+				break
+			}
+			time.Sleep(10 * time.Millisecond)
+		}
 	}
 	return has
 }
